@@ -168,6 +168,27 @@ theorem etok_items (items : List (PItem3 F)) : ∀ t ∈ renderItems3 items, isD
 theorem nodata_targets (xs : List Str) : ∀ t ∈ renderTargets (F := F) xs, isData t = false :=
   Prog2L.nodata_targets xs
 
+/-- the tokens of the targets of a READ -/
+theorem etok_rtarget (t : RTarget F) : ∀ x ∈ t.toks, ETok x := by
+  cases t with
+  | scalar n => intro x hx; simp only [RTarget.toks, List.mem_singleton] at hx; subst hx; exact ⟨rfl, rfl, rfl⟩
+  | cell name idx => exact etok_call name (etok_renderArgs idx)
+
+theorem etok_rtargets (ts : List (RTarget F)) : ∀ x ∈ renderRTargets ts, ETok x := by
+  induction ts with
+  | nil => intro x hx; simp [renderRTargets] at hx
+  | cons t rest ih =>
+    cases rest with
+    | nil => exact etok_rtarget t
+    | cons t' rest' =>
+      intro x hx
+      rw [renderRTargets] at hx
+      rcases List.mem_append.mp hx with hx | hx
+      · exact etok_rtarget t x hx
+      · rcases List.mem_cons.mp hx with rfl | hx
+        · exact ⟨rfl, rfl, rfl⟩
+        · exact ih x hx
+
 theorem dataToks_expr (e : Expr2 F) : dataToks (render2 e) = [] :=
   dataToks_nodata fun t ht => (etok_render2 e t ht).1
 
@@ -210,7 +231,7 @@ theorem dataToks_renderS3 : ∀ (s : RStmt3 F), dataToks (renderS3 s) = s.dataOf
   | .returnS => rfl
   | .readS ts => by
     simp only [renderS3, dataToks_cons_kw, RStmt3.dataOf]
-    exact dataToks_nodata (nodata_targets ts)
+    exact dataToks_nodata fun t ht => (etok_rtargets ts t ht).1
   | .restoreS => rfl
   | .dimS name dims => by
     simp only [renderS3, dataToks_cons_kw, dataToks_cons_symbol, dataToks_append, dataToks_args, List.nil_append,
@@ -296,7 +317,7 @@ theorem renderS3_tokens : ∀ (s : RStmt3 F), s.elseFree = true → ∀ t ∈ re
   | .nextS v, _ => by rw [renderS3]; exact noce_cons ⟨rfl, rfl⟩ (noce_cons ⟨rfl, rfl⟩ noce_nil)
   | .gosubS n, _ => by rw [renderS3]; exact noce_cons ⟨rfl, rfl⟩ (noce_cons ⟨rfl, rfl⟩ noce_nil)
   | .returnS, _ => by rw [renderS3]; exact noce_cons ⟨rfl, rfl⟩ noce_nil
-  | .readS ts, _ => by rw [renderS3]; exact noce_cons ⟨rfl, rfl⟩ (noce_targets ts)
+  | .readS ts, _ => by rw [renderS3]; exact noce_cons ⟨rfl, rfl⟩ (fun t ht => (etok_rtargets ts t ht).2)
   | .dataS items, _ => by rw [renderS3]; exact noce_cons ⟨rfl, rfl⟩ noce_nil
   | .restoreS, _ => by rw [renderS3]; exact noce_cons ⟨rfl, rfl⟩ noce_nil
   | .dimS name dims, _ => by
